@@ -299,6 +299,9 @@ func (r *runner) exec(c *callIn) *callOut {
 	runs := make([]int, 0, repeats)
 	shape := fmt.Sprintf("%d/%d/%d/%v/%v", c.Nb, c.MinS, c.MinM, c.Cross, c.Swap)
 	if r.shared == nil || r.sharedOf != shape {
+		if len(r.params.cfgOrder) != len(c.Swap) {
+			r.params.cfgOrder = permOf(w.rng, len(c.Swap), 2)
+		}
 		r.shared = newShuffler(c, r.params)
 		r.sharedOf = shape
 	}
